@@ -420,7 +420,8 @@ mod imp {
         /// 0 = the boundary grid; 1 = the gated-producer family of the stage (raw: concurrent `next`
         /// on one stream id; pullers: a foreign cancel in the middle of a pull); 2 = the bystander
         /// family (stale `next` / `cancel` for a released stream id while other connections' streams
-        /// are live); 3 = the slow-producer family (pullers: a producer that goes quiet mid-stream)
+        /// are live); 3 = the slow-producer family (pullers: a producer that goes quiet mid-stream); 4 = the
+        /// many-open-sessions family (slow healthy transfers among hundreds of other open sessions)
         fam: u8,
     }
     impl Cfg {
@@ -428,7 +429,7 @@ mod imp {
             StreamOpts { chunk_bytes: self.chunk, compression: if self.zstd { Compression::Zstd } else { Compression::None }, zstd_level: 3, session_depth: self.depth }
         }
         fn json(&self) -> Value {
-            json!({"transport": format!("{:?}", self.tr), "kind": self.kind.name(), "chunk_bytes": self.chunk, "session_depth": self.depth, "zstd": self.zstd, "family": match self.fam { 0 => "grid", 1 => "gated", 2 => "bystander", _ => "slow-producer" }})
+            json!({"transport": format!("{:?}", self.tr), "kind": self.kind.name(), "chunk_bytes": self.chunk, "session_depth": self.depth, "zstd": self.zstd, "family": match self.fam { 0 => "grid", 1 => "gated", 2 => "bystander", 3 => "slow-producer", _ => "many-open-sessions" }})
         }
     }
 
@@ -1581,7 +1582,14 @@ mod imp {
              socket-like bursts, ErrorKind::Interrupted) and writer producers with the same schedules as writes/flushes, healthy and \
              failing (after a short read, on a chunk boundary, before the first byte, after the last byte); the usual oracle. \
              Slow-consumer family: the raw client sends no next for 6.5 s (thorough 12 s / 35 s) in the middle of a stream of several \
-             hundred 1..64-byte chunks, then pulls on; oracle: exactly the producer's bytes and one end marker, or an error response",
+             hundred 1..64-byte chunks, then pulls on; oracle: exactly the producer's bytes and one end marker, or an error response. \
+             Many-open-sessions family: two slow healthy transfers on one server and one on a second server (another registration) pull \
+             a chunk, pause, pull the next, while N in {1,10,100,300,1000} (thorough: 5000) other sessions are opened around them on \
+             the slow transfer's own connection and on three others and are left open / pulled once and left / abandoned (their \
+             connection closes without a cancel), plus N/4 that complete or are cancelled; then the slow transfers and a sample of the \
+             left-open sessions are pulled to their end; the bystander interpreter judges every response: a next on a live stream nobody \
+             released is never an error, every healthy stream delivers exactly its bytes and one end marker (the library documents no \
+             session cap and no idle watchdog)",
         );
         let mut cfgs = grid(args, true, |i, _| if args.thorough() { vec![Tr::Tcp, Tr::Ws] } else if i % 3 == 0 { vec![Tr::Tcp, Tr::Ws] } else { vec![Tr::Tcp] });
         let mut rng = Rng::new(args.seed ^ 0x0C09_5AFE);
@@ -1602,13 +1610,14 @@ mod imp {
         let cfgs = by;
         quiet_panics(true);
         // the side-car families work on their own threads while the pool works
-        let side = [slowc::spawn(args, true), frag::spawn(args, true), popts::spawn(args, true)];
+        let side = [crowd::spawn(args, true), slowc::spawn(args, true), frag::spawn(args, true), popts::spawn(args, true)];
         run_pool(&mut rep, args, cfgs, raw_work);
         for f in side {
             sidecar::join(f, &mut rep);
         }
         quiet_panics(false);
         sidecar_summary(&mut rep, args, true);
+        crowd::summary(&mut rep, true);
         if rep.get_count("streams_completed") == 0 && rep.inconclusive.is_empty() {
             rep.inconclusive("no stream was pulled");
         }
@@ -2301,7 +2310,21 @@ mod imp {
              pull_to_file_trailer_verified(_async), stops reading ONCE for 6.5 s (thorough: 12 s and 35 s) after 5-50% of a stream of \
              several hundred 1..64-byte chunks (zstd: thousands), then reads on, over Client, AsyncClient and WebSocketClient; oracle: Ok \
              carries / the committed file holds exactly the producer's bytes, verify is only called on a digest fed exactly the content, a \
-             clean Err is tolerated and counted",
+             clean Err is tolerated and counted. \
+             Same-thread family: one fresh OS thread per history performs 36 (thorough 80) pulls over eight producers (every kind, both \
+             compression settings, chunk 256..1 MiB) through pull_consume, pull_to_vec, pull_value / pull_typed_slice / \
+             pull_complex_slice, pull_to_file, pull_to_beve_file, pull_to_beve_zst_file, pull_to_file_trailer_verified, pull_stream \
+             (Value, RawFile) and the async forms over AsyncClient / WebSocketClient; earlier pulls end in every way a consumer can end \
+             (to the end; Ok after a prefix: 0 bytes, 1 byte, inside a chunk, on a chunk boundary, one byte before the end, exactly the \
+             length without asking for the end; a self-delimiting value decoder; the consumer's own error; a refusing digest / verify; a \
+             failing producer; a cancel from another connection mid-pull; the reader dropped early) and are each followed on the same \
+             thread by ordinary complete pulls, compressed and uncompressed, compressible and not, small and multi-chunk (beyond one zstd \
+             block); oracle per pull: exactly the producer's bytes / exactly the prefix the consumer asked for / Err for a failing \
+             producer, whatever the thread did before. \
+             Many-open-sessions family: the closure of pull_consume / pull_consume_async (Client, AsyncClient, WebSocketClient) reads \
+             5-30% of a stream of hundreds of chunks and stops while raw connections open N in {1,10,100,300,1000} (thorough 5000) other \
+             sessions on the same server (a third of them on a connection that then closes) and a few on a second server, then reads on; \
+             oracle: Ok with exactly the producer's bytes",
         );
         let mut cfgs = grid(args, false, |i, _| if args.thorough() { vec![Tr::Tcp, Tr::Ws] } else if i % 3 == 0 { vec![Tr::Ws] } else { vec![Tr::Tcp] });
         let mut rng = Rng::new(args.seed ^ 0x0C09_9011);
@@ -2329,7 +2352,7 @@ mod imp {
         quiet_panics(true);
         // the slow-producer family sleeps through its stalls on its own threads while the pool works
         let slow_family = slow::spawn(args);
-        let side = [slowc::spawn(args, false), frag::spawn(args, false), popts::spawn(args, false)];
+        let side = [crowd::spawn(args, false), seq::spawn(args), slowc::spawn(args, false), frag::spawn(args, false), popts::spawn(args, false)];
         run_pool(&mut rep, args, cfgs, pullers_work);
         slow::join(slow_family, &mut rep);
         for f in side {
@@ -2338,6 +2361,8 @@ mod imp {
         quiet_panics(false);
         repe::verif_hooks::set_probe(None);
         sidecar_summary(&mut rep, args, false);
+        crowd::summary(&mut rep, false);
+        seq::summary(&mut rep);
         if rep.get_count("pulls_matching") == 0 && rep.inconclusive.is_empty() {
             rep.inconclusive("no pull completed");
         }
@@ -2350,4 +2375,6 @@ mod imp {
     include!("c09_popts.rs");
     include!("c09_frag.rs");
     include!("c09_slowc.rs");
+    include!("c09_crowd.rs");
+    include!("c09_seq.rs");
 }
